@@ -64,6 +64,7 @@ structure Exec where
   oldRole : Role
   stage   : Stage := .sleeping
   cbOk    : Bool := true        -- what the callback answers (known when it is invoked)
+  epoch   : Nat := 0            -- roleEpoch when the callback was invoked
   -- history: when the execution was entered and since when the partner had then been down
   firedAt : Nat
   downSinceAtFire : Option Nat
@@ -84,6 +85,7 @@ structure State where
   state   : FState := .normal
   healthy : Bool := true
   gen     : Nat := 0
+  roleEpoch : Nat := 0                -- committed role changes
   timers  : List Timer := []
   execs   : List Exec := []
   initiated : Nat := 0
@@ -194,7 +196,7 @@ def callCheck (s : State) (j : Nat) (ok : Bool) (dur : Nat) : State × List Emit
       if s.state ≠ .failbackPending ∨ e.gen ≠ s.gen then ({ s with execs := s.execs.eraseIdx j }, [])
       else if s.healthy = false then ({ s with execs := s.execs.eraseIdx j, state := .complete }, [])
       else
-        ({ s with execs := setExec s.execs j { e with stage := .calling, due := s.now + dur, cbOk := ok } },
+        ({ s with execs := setExec s.execs j { e with stage := .calling, due := s.now + dur, cbOk := ok, epoch := s.roleEpoch } },
          [.callback s.cfg.original ok])
 
 /-- the callback has returned: commit (or the failure path) under the lock -/
@@ -207,7 +209,7 @@ def commit (s : State) (j : Nat) : State × List Emit :=
     match e.kind with
     | .failover =>
       if e.cbOk then
-        let s1 := { s with role := .active, state := .complete, completed := s.completed + 1, promotions := s.promotions + (if s.role = .standby then 1 else 0), completedEvents := s.completedEvents + 1, autoLog := if e.forced then s.autoLog else s.autoLog ++ [(e.firedAt, e.downSinceAtFire)], forcedHold := e.forced }
+        let s1 := { s with role := .active, roleEpoch := s.roleEpoch + 1, state := .complete, completed := s.completed + 1, promotions := s.promotions + (if s.role = .standby then 1 else 0), completedEvents := s.completedEvents + 1, autoLog := if e.forced then s.autoLog else s.autoLog ++ [(e.firedAt, e.downSinceAtFire)], forcedHold := e.forced }
         (if e.forced = false ∧ s1.healthy = true then scheduleFailback s1 else s1,
          [.completed e.forced, .roleChanged e.oldRole .active])
       else
@@ -215,9 +217,9 @@ def commit (s : State) (j : Nat) : State × List Emit :=
         (if s1.healthy = false then scheduleFailover s1 else s1, [.callbackFailed .active])
     | .failback =>
       if e.cbOk then
-        if s.role ≠ e.oldRole then (s, [])
+        if e.epoch ≠ s.roleEpoch then (s, [])
         else
-          let s1 := { s with role := s.cfg.original, state := .normal, failbacks := s.failbacks + 1 }
+          let s1 := { s with role := s.cfg.original, roleEpoch := s.roleEpoch + 1, state := .normal, failbacks := s.failbacks + 1 }
           (if s1.healthy = false then scheduleFailover s1 else s1,
            [.failbackCompleted, .roleChanged e.oldRole s.cfg.original])
       else if s.state = .failbackPending ∧ e.gen = s.gen then
